@@ -310,4 +310,171 @@ def exOpsE : List EditOp :=
 example : (∀ o ∈ exOpsE, EditOp.ValidE o) ∧ ¬ (∀ o ∈ exOpsE, o.Valid) := by decide
 example : exEditDoc.kids = C03.exDoc.tree.children ∧ C03.exDoc.WF := ⟨rfl, by decide⟩
 
+/-! ## 3. invalid names (outside the property's domain): what the model — and, by the audit's runs,
+the code — does there. `insert` goes through `terminate_last_line` (`Node.lastTok` does not reduce
+in the kernel), so the start paragraph is given as a body and tied to the parser with
+`paraOfText_para`; the `rename` witnesses are evaluated directly on the parse. -/
+
+/-- the paragraph `A: b\n` -/
+def pA : ParaS := fld 'A' 'b' true
+def bA : List LItem := paraBody pA
+
+theorem start_A : paraOfText "A: b\n".toList = some (paraNode bA) := by
+  have h := paraOfText_para pA (by decide) (by decide)
+  have hs : (docOfPara pA).str = "A: b\n".toList := by decide
+  rw [hs] at h
+  rw [h]; exact congrArg some (paraNode_paraBody pA).symm
+
+theorem bA_allNl : ∀ i ∈ toPs bA, i.AllNl := by
+  intro i hi
+  simp only [bA, toPs_paraBody, pA, fld, List.mem_cons, List.not_mem_nil, or_false] at hi
+  subst hi
+  exact ⟨rfl, by simp⟩
+
+/-- the last line of `A: b\n` is terminated: `insert` appends the new entry, nothing else -/
+theorem insert_A (k v : Str) : paraInsert (lnodes bA) k v = lnodes bA ++ [entryNew k v] := by
+  unfold paraInsert
+  rw [terminateLastLine_of_not_needs _ (needsNl_lnodes_allNl _ bA_allNl)]
+
+/-- the document `A: b\n` after `insert(k, v)` through its paragraph -/
+def insDoc (k v : Str) : DNode := .node .ROOT [.node .PARAGRAPH (lnodes bA ++ [entryNew k v])]
+
+/-- **invalid names, closed witnesses** (start: the paragraph parsed from `A: b\n`; operation
+    `insert(k, "v")`; live content, printed text, strict re-read):
+    * ` A` (leading blank): live `[(A, b), (" A", v)]`, text `A: b\n A: v\n`, re-read ONE field
+      `(A, "b\nA: v")` — the line joins the NEIGHBOUR field's value;
+    * `#A`: text `A: b\n#A: v\n`, re-read `[(A, b)]` — the field is read as a comment and vanishes;
+    * `A:B`: text `A: b\nA:B: v\n`, re-read `[(A, b), (A, "B: v")]` — name cut at the first colon;
+    * `A ` (trailing blank): text `A: b\nA : v\n`, re-read `[(A, b), (A, v)]` — silently renamed.
+    None of these names satisfies `ValidKey`. -/
+theorem C04_invalid_key_witnesses :
+    paraOfText "A: b\n".toList = some (paraNode bA)
+    ∧ (∀ k v, Node.node Kind.ROOT [.node .PARAGRAPH (paraInsert (lnodes bA) k v)] = insDoc k v)
+    ∧ (docItems (insDoc " A".toList ['v']) = [[(['A'], ['b']), (" A".toList, ['v'])]]
+        ∧ (insDoc " A".toList ['v']).text = "A: b\n A: v\n".toList
+        ∧ rereads (insDoc " A".toList ['v']) [[(['A'], "b\nA: v".toList)]] = true)
+    ∧ (docItems (insDoc "#A".toList ['v']) = [[(['A'], ['b']), ("#A".toList, ['v'])]]
+        ∧ (insDoc "#A".toList ['v']).text = "A: b\n#A: v\n".toList
+        ∧ rereads (insDoc "#A".toList ['v']) [[(['A'], ['b'])]] = true)
+    ∧ (docItems (insDoc "A:B".toList ['v']) = [[(['A'], ['b']), ("A:B".toList, ['v'])]]
+        ∧ (insDoc "A:B".toList ['v']).text = "A: b\nA:B: v\n".toList
+        ∧ rereads (insDoc "A:B".toList ['v']) [[(['A'], ['b']), (['A'], "B: v".toList)]] = true)
+    ∧ (docItems (insDoc "A ".toList ['v']) = [[(['A'], ['b']), ("A ".toList, ['v'])]]
+        ∧ (insDoc "A ".toList ['v']).text = "A: b\nA : v\n".toList
+        ∧ rereads (insDoc "A ".toList ['v']) [[(['A'], ['b']), (['A'], ['v'])]] = true)
+    ∧ ¬ ValidKey " A".toList ∧ ¬ ValidKey "#A".toList ∧ ¬ ValidKey "A:B".toList ∧ ¬ ValidKey "A ".toList := by
+  refine ⟨start_A, fun k v => by rw [insert_A]; rfl, ⟨?_, ?_, ?_⟩, ⟨?_, ?_, ?_⟩, ⟨?_, ?_, ?_⟩,
+    ⟨?_, ?_, ?_⟩, ?_, ?_, ?_, ?_⟩ <;> decide +kernel
+
+/-- the document `A: b\nB: c\n` after `rename("B", k')` through its paragraph -/
+def renDoc (k' : Str) : DNode :=
+  .node .ROOT (editFirst (fun cs => (paraRename cs ['B'] k').1) (kidsOf "A: b\nB: c\n".toList))
+
+/-- the same observations for `rename("B", k')` on the parse of `A: b\nB: c\n`, evaluated on the
+    parser's tree directly: ` A` joins field A (`(A, "b\nA: c")`), `#A` vanishes, `X:Y` re-reads as
+    `(X, "Y: c")` -/
+theorem C04_invalid_key_rename_witnesses :
+    (docItems (renDoc " A".toList) = [[(['A'], ['b']), (" A".toList, ['c'])]]
+        ∧ (renDoc " A".toList).text = "A: b\n A: c\n".toList
+        ∧ rereads (renDoc " A".toList) [[(['A'], "b\nA: c".toList)]] = true)
+    ∧ (docItems (renDoc "#A".toList) = [[(['A'], ['b']), ("#A".toList, ['c'])]]
+        ∧ (renDoc "#A".toList).text = "A: b\n#A: c\n".toList
+        ∧ rereads (renDoc "#A".toList) [[(['A'], ['b'])]] = true)
+    ∧ (docItems (renDoc "X:Y".toList) = [[(['A'], ['b']), ("X:Y".toList, ['c'])]]
+        ∧ (renDoc "X:Y".toList).text = "A: b\nX:Y: c\n".toList
+        ∧ rereads (renDoc "X:Y".toList) [[(['A'], ['b']), (['X'], "Y: c".toList)]] = true) := by
+  refine ⟨⟨?_, ?_, ?_⟩, ⟨?_, ?_, ?_⟩, ⟨?_, ?_, ?_⟩⟩ <;> decide +kernel
+
+/-! ## 4. C05: paragraphs stay separated -/
+
+/-- a PARAGRAPH child is followed by nothing or by the blank-line node `EMPTY_LINE[NEWLINE "\n"]` -/
+def Separated : List DNode → Prop
+  | [] => True
+  | [_] => True
+  | x :: y :: r => (isParaNode x = true → y = emptyLine) ∧ Separated (y :: r)
+
+theorem separated_of_term (us : List EUnit) (n : Option EUnit) (h : unitsTermN us n) :
+    Separated (unitsKids us) := by
+  induction us with
+  | nil => trivial
+  | cons x us ih =>
+    cases us with
+    | nil => trivial
+    | cons y r =>
+      simp only [unitsTermN] at h
+      refine ⟨?_, ih h.2⟩
+      intro hp
+      obtain ⟨b, rfl⟩ := (isParaNode_unit x).mp hp
+      rcases h.1.2 with h0 | h0
+      · cases h0
+      · cases h0; exact emptyLine_eq.symm
+
+/-- **separator invariant** from the edit invariant: in a document of units satisfying `UWF`, every
+    PARAGRAPH child of the root is the last child or is directly followed by the blank-line node -/
+theorem C05_paragraphs_separated (us : List EUnit) (h : UWF us) : Separated (unitsKids us) :=
+  separated_of_term us none h.term
+
+/-- index form: the child behind a PARAGRAPH child is the blank-line node -/
+theorem separated_next (kids : List DNode) (h : Separated kids) (i : Nat) (a b : DNode)
+    (ha : kids[i]? = some a) (hb : kids[i + 1]? = some b) (hp : isParaNode a = true) : b = emptyLine := by
+  induction kids generalizing i with
+  | nil => cases ha
+  | cons x r ih =>
+    cases r with
+    | nil => cases i <;> simp at hb
+    | cons y r =>
+      cases i with
+      | zero =>
+        simp only [List.getElem?_cons_zero, List.getElem?_cons_succ, Option.some.injEq] at ha hb
+        subst ha hb
+        exact h.1 hp
+      | succ i => exact ih h.2 i (by simpa using ha) (by simpa using hb)
+
+/-- two PARAGRAPH nodes are never adjacent children of the root -/
+theorem C05_no_adjacent_paragraphs (us : List EUnit) (h : UWF us) (i : Nat) (a b : DNode)
+    (ha : (unitsKids us)[i]? = some a) (hb : (unitsKids us)[i + 1]? = some b) :
+    ¬ (isParaNode a = true ∧ isParaNode b = true) := by
+  rintro ⟨hpa, hpb⟩
+  have := separated_next _ (C05_paragraphs_separated us h) i a b ha hb hpa
+  subst this
+  revert hpb; decide
+
+/-- **along histories**: after any sequence of the seven operations (valid names; values valid or
+    empty; every paragraph index) on a parsed well-formed document, every PARAGRAPH child of the root
+    is the last child or is directly followed by the blank-line node -/
+theorem C05_paragraphs_separated_history (d0 : DocS) (hwf : d0.WF) (d : Doc)
+    (hd : d.kids = d0.tree.children) (ops : List EditOp) (hv : ∀ o ∈ ops, EditOp.ValidE o) :
+    Separated (run d ops).kids := by
+  obtain ⟨us', h1, h2⟩ := run_unitsE ops (unitsOf d0) d (uwf_unitsOf d0 hwf)
+    (by rw [hd, unitsKids_unitsOf]) hv
+  rw [h1]; exact C05_paragraphs_separated us' h2
+
+/-- the same from a document built with `FromIterator` from valid (name, value) pairs (the empty
+    document for `ps = []`) -/
+theorem C05_paragraphs_separated_history_built (ps : List (List (Str × Str)))
+    (hps : ∀ p ∈ ps, ValidPairs p) (d : Doc) (hd : d.kids = docOfParas (ps.map paraOfPairs))
+    (ops : List EditOp) (hv : ∀ o ∈ ops, EditOp.ValidE o) :
+    Separated (run d ops).kids := by
+  obtain ⟨us', h1, h2⟩ := run_unitsE ops (builtUnits ps) d (uwf_built ps hps)
+    (by rw [hd, unitsKids_built ps hps]) hv
+  rw [h1]; exact C05_paragraphs_separated us' h2
+
+/-- the same from a document collected (`FromIterator<Paragraph> for Deb822`) from parsed paragraph
+    bodies, possibly unterminated (`Props/C05Collect.lean`) -/
+theorem C05_paragraphs_separated_history_collected (bs : List (List LItem)) (hbs : ∀ b ∈ bs, BodyOk b)
+    (d : Doc) (hd : d.kids = docOfParas (bs.map paraNode))
+    (ops : List EditOp) (hv : ∀ o ∈ ops, EditOp.ValidE o) :
+    Separated (run d ops).kids := by
+  obtain ⟨us', h1, h2⟩ := run_unitsE ops (collUnits bs) d (collect_uwf bs hbs)
+    (by rw [hd, collect_kids bs (fun b hb => (hbs b hb).1)]) hv
+  rw [h1]; exact C05_paragraphs_separated us' h2
+
+/-- `Separated` is not trivially true: two adjacent PARAGRAPH nodes violate it, and so does a
+    PARAGRAPH followed by a comment-line node -/
+example : ¬ Separated [.node .PARAGRAPH [], .node .PARAGRAPH []] := by
+  intro h; have := h.1 rfl; revert this; simp [emptyLine]
+example : UWF (unitsOf C03.exDoc) ∧ ((unitsKids (unitsOf C03.exDoc)).filter isParaNode).length = 2 := by
+  constructor <;> decide
+example : ∀ b ∈ exBodies, BodyOk b := by decide
+
 end Deb822Verif.Props.C04More
